@@ -728,7 +728,7 @@ class Environments(collections.abc.Sequence, Sequence[Environment]):
         #Experience has shown that most of the time we want to sort.
         #This doesn't change the experiment results. It simply makes it
         #easier monitor an experiment while it runs in the background.
-        ordered = sorted(shuffled, key=lambda env: env.params.get('shuffle_seed',0))
+        ordered = sorted(shuffled._envs, key=lambda env: env[-1].params['shuffle_seed'])
 
         return Environments(ordered)
 
